@@ -10,7 +10,8 @@ PROPS = ["C%02d" % i for i in range(1, 21)]
 jobs = []
 for i in ids:
     if os.path.exists(os.path.join(BASE, i, "patch.diff")):      # flat layout: <BASE>/Cxx-k/patch.diff
-        jobs.append((i, os.path.join(BASE, i, "patch.diff")))
+        rb = os.path.join(BASE, i, "patch.rebased.diff")      # (re-based when a later fix: commit changed the context)
+        jobs.append((i, rb if os.path.exists(rb) else os.path.join(BASE, i, "patch.diff")))
         continue
     od = os.path.join(BASE, i, "out") if os.path.isdir(os.path.join(BASE, i, "out")) else os.path.join(BASE, i)
     for k in sorted(os.listdir(od)):
